@@ -88,6 +88,15 @@ def run(ctx):
                 last_raised = True
             except Exception as ex:  # noqa
                 crash = f"{type(ex).__name__}: {ex}"
+            # a look-up is an observation: every table is asked after every line, in both orientations
+            if idx % 2 == 0:
+                for a in keys:
+                    for b in keys:
+                        try:
+                            p.interaction_matrix.get_value(a, b)
+                            p.sidechain_cutoffs.get_value(a, b)
+                        except Exception as ex:  # noqa
+                            crash = crash or f"look-up: {type(ex).__name__}: {ex}"
         ctx.count()
         if len(texts) >= 2:
             ctx.nontriv(tuple(texts))
